@@ -302,3 +302,33 @@ Qed.
 
 Lemma prio10_value_like d : priority d = Some 10%N -> is_value_like d = true.
 Proof. destruct d; intros H; try reflexivity; vm_compute in H; discriminate H. Qed.
+
+(* ---- setup_space_list_check, isolated: the only three facts the loop invariant needs
+   (the only proofs in Proofs/C02 that unfold [space_list_check]) ---- *)
+Lemma slc_none st ug : last_left st = None -> space_list_check st ug = Ok (check_for_list st).
+Proof. intros H. unfold space_list_check. rewrite H. reflexivity. Qed.
+
+(* last_left is a completed operand: a value, a suffix operator node, or a closed bracket *)
+Lemma slc_operand st ug l ln :
+  last_left st = Some l -> nth_error (nodes st) l = Some ln ->
+  (is_value_like (n_def ln) = true \/ n_sec ln = S_UnarySuffix \/
+   (n_def ln = D_Group /\ opt_nat_eqb (Some l) ug = false)) ->
+  space_list_check st ug = Ok true.
+Proof.
+  intros Hll Hln H. unfold space_list_check. rewrite Hll, Hln. destruct H as [H|[H|[H1 H2]]].
+  - rewrite H. reflexivity.
+  - rewrite H. cbn [secondary_eqb secondary_index N.eqb Pos.eqb]. rewrite orb_true_r. reflexivity.
+  - rewrite H1, H2. reflexivity.
+Qed.
+
+(* last_left is the node of an open frame (operator or open bracket): nothing changes *)
+Lemma slc_frame st ug l ln :
+  last_left st = Some l -> nth_error (nodes st) l = Some ln -> check_for_list st = false ->
+  is_value_like (n_def ln) = false -> secondary_eqb (n_sec ln) S_UnarySuffix = false ->
+  definition_eqb (n_def ln) D_SideEffect = false ->
+  (definition_eqb (n_def ln) D_Group || definition_eqb (n_def ln) D_NestedExpression)
+    && negb (opt_nat_eqb (Some l) ug) = false ->
+  space_list_check st ug = Ok false.
+Proof.
+  intros Hll Hln Hcfl Hv Hs Hse Hg. unfold space_list_check. rewrite Hll, Hln, Hcfl, Hv, Hs, Hse, Hg. reflexivity.
+Qed.
